@@ -175,10 +175,18 @@ def execute(pid, tier, seed, cases, assumptions, extra_cov=None, budget_s=None, 
     results = [bn[q.name] for q in queries]
     # ---- re-derive the counterexamples of failing queries WITHOUT --slice-formula, in parallel (the sliced trace omits
     # assignments outside the failing assertion's cone of influence, so the nondet stream would be incomplete)
-    rq = []
+    rq = []; early = {}
     for r in results:
         c, kind = qcase[r['name']]
         if kind not in ('witness', 'cover') and r.get('status') == 'fails' and not any('unwinding assertion' in d for _, d in r.get('failed', [])):
+            # first try the (possibly incomplete) trace of the sliced run: when the native run already reproduces an assertion
+            # failure, the expensive unsliced re-derivation is not needed
+            try:
+                rp0 = replay_case(pid, c, r, bdir, c._exdefs if kind == 'excl' else [])
+                if rp0.get('reproduced') and not rp0.get('infeasible') and not rp0.get('exhausted'):
+                    early[r['name']] = rp0; continue
+            except Broken:
+                pass
             q2 = c.query(c._exdefs if kind == 'excl' else [], suffix=('+excl' if kind == 'excl' else '') + '+replaytrace'); q2.noslice = True
             rq.append((r['name'], q2))
     retrace = {}
@@ -223,10 +231,12 @@ def execute(pid, tier, seed, cases, assumptions, extra_cov=None, budget_s=None, 
         try:
             # the sliced formula's trace omits assignments outside the failing assertion's cone of influence, so the
             # nondet stream would be incomplete: re-derive the counterexample without --slice-formula for the replay
-            r2 = retrace.get(r['name'], {})
-            if r2.get('status') == 'fails':
-                r = dict(r); r['log'] = r2['log']; r['failed'] = r2.get('failed', r.get('failed'))
-            rp = replay_case(pid, c, r, bdir, exd)
+            if r['name'] in early: rp = early[r['name']]
+            else:
+                r2 = retrace.get(r['name'], {})
+                if r2.get('status') == 'fails':
+                    r = dict(r); r['log'] = r2['log']; r['failed'] = r2.get('failed', r.get('failed'))
+                rp = replay_case(pid, c, r, bdir, exd)
         except Broken as e:
             broken.append('replay build failed for %s: %s' % (r['name'], str(e)[:500])); continue
         r['replay'] = {k: rp.get(k) for k in ('path', 'reproduced', 'native_failed', 'native_rc', 'infeasible', 'exhausted')}
